@@ -556,6 +556,7 @@ def r09_s(ctx):
     """the result does not depend on the literal's offset: escape carry across SIMD blocks (shared with C13)"""
     from . import c13
     ctx.include(c13.r13_6, 'R09.S')
+    ctx.include(c13.r13_3, 'R09.S')   # a literal with an escape is reported as such by the skippers: the lazy string view decodes it instead of handing out the raw text
 
 
 RULES = [("R09.1", r09_1), ("R09.2", r09_2), ("R09.3", r09_3), ("R09.4", r09_4), ("R09.5", r09_5), ("R09.6", r09_6), ("R09.7", r09_7), ("R09.8", r09_8), ("R09.9", r09_9), ("R09.S", r09_s)]
